@@ -235,10 +235,22 @@ pub fn gen_cases(seed: u64, n: usize, max_len: i32, max_depth: usize, start_id: 
         let k = rng.gen_range(1..=4);
         // theme: 0 mixed, 1 only block-alternates (several disjoint regions), 2 only special modes,
         // 3 only before/after/alternate
-        let theme = rng.gen_range(0..6);
+        // 6: a semantic-after probe on EVERY branch (several flags resolved at one end)
+        let theme = rng.gen_range(0..7);
         let mut plan: Vec<J> = vec![];
         let mut regions: Vec<(usize, usize)> = vec![];
         let mut tries = 0;
+        if theme == 6 {
+            for i in 0..body.len() {
+                let o = body[i]["o"].as_str().unwrap();
+                if ["br", "br_if", "br_table"].contains(&o) && modes_at(&body, i).contains(&"semantic_after") && plan.len() < 5 {
+                    let p = plan.len() as u64;
+                    let api = ["iter", "mod", "iter_at", "mod_at"][rng.gen_range(0..4)];
+                    plan.push(json!({"p":p,"site":i,"mode":"semantic_after","api":api,"code":[{"o":"probe","p":p}],"acc":true}));
+                }
+            }
+            tries = 80;
+        }
         while plan.len() < k && tries < 80 {
             tries += 1;
             let p = plan.len() as u64;
